@@ -108,9 +108,10 @@ def gen_tri_pairs(ctx, count):
             if abs(a) >= 8:
                 return t
     tries = 0
-    while len(out) < count and tries < 200 * count:
+    base = 0
+    while base < count and tries < 200 * count:
         tries += 1
-        fam = ("random", "nested", "near-disjoint")[len(out) % 3]
+        fam = ("random", "nested", "near-disjoint")[base % 3]
         if fam == "random":
             A, B = rnd_tri(-12, 12), rnd_tri(-12, 12)
         elif fam == "nested":
@@ -159,6 +160,27 @@ def gen_tri_pairs(ctx, count):
         if fam == "near-disjoint" and exp[0] != "empty":
             continue
         out.append({"A": A, "B": B, "family": fam, "expected": exp})
+        base += 1
+        # the same pair with the small triangle GENUINELY quadratic: its mid-edge control points are moved, all six control points
+        # staying strictly inside the other (linear) triangle - then the curved triangle lies inside it (convex hull property) -
+        # or strictly beyond the separating side; the exact answers "inner" / "empty" carry over
+        if fam in ("nested", "near-disjoint") and exp[0] in ("inner", "empty"):
+            small_is = 1 if (exp == ("inner", 1) or (exp[0] == "empty" and abs(orient(*B)) < abs(orient(*A)))) else 0
+            S, L = (B, A) if small_is == 1 else (A, B)
+            mid = lambda u, v, d: ((u[0] + v[0]) / 2 + d[0], (u[1] + v[1]) / 2 + d[1])
+            span = max(abs(S[i][k] - S[j][k]) for i in range(3) for j in range(3) for k in (0, 1))
+            bump = [(F(rng.randint(-2, 2), 32) * span, F(rng.randint(-2, 2), 32) * span) for _ in range(3)]
+            net = [S[0], mid(S[0], S[1], bump[0]), S[1], mid(S[0], S[2], bump[1]), mid(S[1], S[2], bump[2]), S[2]]
+            if not all(F(float(x)) == x for pt_ in net for x in pt_):
+                continue
+            if exp[0] == "inner":
+                ok = all(orient(L[i], L[(i + 1) % 3], q) > 0 for q in net for i in range(3))
+            else:
+                ok = any(all(orient(L[i], L[(i + 1) % 3], q) < 0 for q in net) for i in range(3))
+            # a valid (positively oriented everywhere) quadratic: small bumps relative to the size; certified by the Jacobian net signs
+            if ok:
+                rowsS = [[q[0] for q in net], [q[1] for q in net]]
+                out.append({"A": A, "B": B, "family": "curved-" + fam, "expected": exp, "curved": small_is, "rows_curved": rowsS})
     return out
 
 
@@ -188,10 +210,28 @@ def tri_presentations(A, B):
     return [o for o in out if all(F(float(x)) == x for r in o[1] + o[2] for x in r)]
 
 
+def curved_presentations(c):
+    """presentations of a pair whose triangle number c['curved'] is a genuine quadratic: swap, elevation of the linear one,
+    elevation of the quadratic one (cubic, rounded to binary64), translation, scaling"""
+    e = lambda rows, k: rows if k == 0 else e(tri_elevate(rows, {3: 1, 6: 2, 10: 3}[len(rows[0])]), k - 1)
+    r = [tri_rows(c["A"]), tri_rows(c["B"])]
+    r[c["curved"]] = c["rows_curved"]
+    rA, rB = r
+    f = lambda rows, g: [[g(0, x) for x in rows[0]], [g(1, y) for y in rows[1]]]
+    out = [("identity", rA, rB, (0, 1), 1),
+           ("swap arguments", rB, rA, (1, 0), 1),
+           ("elevate the linear one", *( (e(rA, 1), rB) if c["curved"] == 1 else (rA, e(rB, 1)) ), (0, 1), 1),
+           ("elevate the quadratic one (rounded to binary64)", *( (rA, [[F(float(x)) for x in q] for q in e(rB, 1)]) if c["curved"] == 1
+                                                                 else ([[F(float(x)) for x in q] for q in e(rA, 1)], rB) ), (0, 1), 1),
+           ("translate", f(rA, lambda k, x: x + (3 if k == 0 else -5)), f(rB, lambda k, x: x + (3 if k == 0 else -5)), (0, 1), 1),
+           ("scale by 4", f(rA, lambda k, x: 4 * x), f(rB, lambda k, x: 4 * x), (0, 1), 16)]
+    return [o for o in out if all(F(float(x)) == x for q in o[1] + o[2] for x in q)]
+
+
 def triangle_sweep(ctx):
     cases = gen_tri_pairs(ctx, 18 if ctx.quick() else 400)
     stats = {"cases": len(cases), "presentations": 0, "failures": 0,
-             "families": {f: sum(1 for c in cases if c["family"] == f) for f in ("random", "nested", "near-disjoint")},
+             "families": {f: sum(1 for c in cases if c["family"] == f) for f in ("random", "nested", "near-disjoint", "curved-nested", "curved-near-disjoint")},
              "expected": {k: sum(1 for c in cases if c["expected"][0] == k) for k in ("empty", "inner", "polygon")},
              "kind": "metamorphic support sweep with an exact answer: degree-1 triangle pairs in strict general position, presented "
                      "swapped / elevated to degree 2 and 3 / with relabelled corners / translated / axes swapped / mirrored / scaled; "
@@ -200,7 +240,7 @@ def triangle_sweep(ctx):
     for cfg in ("pure", "speedup"):
         jobs, meta = [], []
         for ci, c in enumerate(cases):
-            for pres in tri_presentations(c["A"], c["B"]):
+            for pres in (curved_presentations(c) if "curved" in c else tri_presentations(c["A"], c["B"])):
                 jobs.append({"op": "Triangle.intersect_summary", "args": [enc_arr(pres[1]), enc_arr(pres[2])]})
                 meta.append((ci, pres))
         res = run_impl_parallel(cfg, jobs)
@@ -297,4 +337,4 @@ def run(ctx):
                   "flip in full_newton, first/second handling when one side is linearized, the absolute 2^-26 linearization threshold): "
                   "metamorphic sweep over Sturm-certified line-curve pairs, resultant-certified curve-curve pairs (random, lattice, touching end points, planted) and planted pairs, 8 presentations, both configurations",
                   unproved=["equivariance of the converged answers (support sweep)", "splitting a curve yields the rescaled union (not swept)",
-                            "triangle-triangle presentations of genuinely curved pairs (linear pairs presented up to degree 3 are swept against the exact clipping answer)"])
+                            "triangle-triangle presentations of curved pairs with crossing edges (linear pairs presented up to degree 3 and linear-quadratic nested / disjoint pairs are swept against exact answers)"])
